@@ -1,1 +1,166 @@
-From V Require Export C12_Model.
+(* C12_Props.v — the property theorems of C12 and nothing else.
+   Each is closed by `exact <lemma>` and followed by Print Assumptions.
+   Vocabulary: C12_Spec (deviates, aspect_of, expected_feedback, seen_before, connect_grammar,
+   grpc_timeout_is, timeout_is, float_quot_ok); `checks fq calls request` is the model of
+   referenceServerChecks, fq the float64 conversion of package time (any function satisfying
+   float_quot_ok; the extracted model and the differential run use the exact quotient). *)
+From Coq Require Import Lia.
+From V Require Import C12_Spec C12_Proofs.
+Open Scope Z_scope.
+
+(* ---- the matrix: every announced set-up (648) x every client rendering (756), every test name ---- *)
+
+(* the feedback on a fresh handler is exactly one line per deviating aspect, naming what was announced
+   and what was seen; no timeout is recorded and the request is handed on unchanged *)
+Theorem matrix_feedback_exact : forall fq name (e : axes) (a : actual), name <> [] ->
+  checks fq [] (with_expect name e (render a)) =
+  ([(name, 1)], Served name (expected_feedback e (project a)) None (with_expect name e (render a))).
+Proof. exact matrix_feedback_exact_proof. Qed.
+Print Assumptions matrix_feedback_exact.
+
+(* silent exactly on matching pairs *)
+Theorem silent_iff_match : forall fq name (e : axes) (a : actual), name <> [] ->
+  feedback_of (snd (checks fq [] (with_expect name e (render a)))) = [] <-> project a = e.
+Proof. exact silent_iff_match_proof. Qed.
+Print Assumptions silent_iff_match.
+
+(* an aspect deviates exactly when a line about that aspect is written ... *)
+Theorem names_each_aspect : forall fq name (e : axes) (a : actual), name <> [] -> forall A,
+  deviates A e (project a) <->
+  exists k, In k (feedback_of (snd (checks fq [] (with_expect name e (render a))))) /\ aspect_of k = Some A.
+Proof. exact names_each_aspect_proof. Qed.
+Print Assumptions names_each_aspect.
+
+(* ... and nothing else is written *)
+Theorem only_deviations_named : forall fq name (e : axes) (a : actual), name <> [] -> forall k,
+  In k (feedback_of (snd (checks fq [] (with_expect name e (render a))))) ->
+  exists A, aspect_of k = Some A /\ deviates A e (project a).
+Proof. exact only_deviations_named_proof. Qed.
+Print Assumptions only_deviations_named.
+
+(* ---- arbitrary requests, arbitrary histories ---- *)
+
+(* no test name: rejected outright (no feedback, handler not called, counters untouched);
+   otherwise the handler is called and every line is prefixed with the test name *)
+Theorem no_name_rejected : forall fq c r,
+  (name_of r = [] -> checks fq c r = (c, Rejected)) /\
+  (name_of r <> [] -> exists f t r', checks fq c r = (bump c (name_of r), Served (name_of r) f t r')).
+Proof. exact no_name_rejected_proof. Qed.
+Print Assumptions no_name_rejected.
+
+(* after any history on one handler, a request is flagged as repeat #m exactly when its test was
+   seen before, m being one more than the number of earlier requests of that test *)
+Theorem repeat_flagged : forall fq history r later m,
+  name_of r <> [] ->
+  In (KRepeat m) (feedback_of (nth (length history) (run_seq fq [] (history ++ r :: later)) Rejected)) <->
+  0 < seen_before (name_of r) history /\ m = seen_before (name_of r) history + 1.
+Proof. exact repeat_flagged_proof. Qed.
+Print Assumptions repeat_flagged.
+
+(* request trailers are flagged, with their number, and only they *)
+Theorem trailers_flagged : forall fq c r n,
+  In (KTrailers n) (feedback_of (snd (checks fq c r))) <->
+  name_of r <> [] /\ 0 < trailer_keys r /\ n = trailer_keys r.
+Proof. exact trailers_flagged_proof. Qed.
+Print Assumptions trailers_flagged.
+
+(* ---- the timeout grammars, for ALL byte strings ---- *)
+
+Theorem timeout_connect : forall s d,
+  extract_connect s = (Some d, []) <-> connect_grammar s /\ d = connect_duration s.
+Proof. exact timeout_connect_proof. Qed.
+Print Assumptions timeout_connect.
+
+Theorem timeout_connect_rejected : forall s,
+  ~ connect_grammar s <-> exists k, is_timeout_kind k = true /\ extract_connect s = (None, [k]).
+Proof. exact timeout_connect_rejected_proof. Qed.
+Print Assumptions timeout_connect_rejected.
+
+Theorem timeout_grpc : forall fq, float_quot_ok fq -> forall s d,
+  extract_grpc fq s = (Some d, []) <-> grpc_timeout_is s d.
+Proof. exact timeout_grpc_proof. Qed.
+Print Assumptions timeout_grpc.
+
+Theorem timeout_grpc_rejected : forall fq, float_quot_ok fq -> forall s,
+  ~ grpc_grammar s <-> exists k, is_timeout_kind k = true /\ extract_grpc fq s = (None, [k]).
+Proof. exact timeout_grpc_rejected_proof. Qed.
+Print Assumptions timeout_grpc_rejected.
+
+(* through referenceServerChecks, for any request announcing protocol p (any other headers, any
+   history): the timeout header is removed whether or not it is accepted; it is accepted (a duration is
+   stored for the handler) exactly when it follows p's grammar, with exactly the duration it stands
+   for (saturating); a feedback line about the timeout is written exactly when it does not; the
+   handler's request info echoes the whole milliseconds of the accepted duration *)
+Theorem timeout_handled : forall fq, float_quot_ok fq -> forall c r p,
+  name_of r <> [] -> announces r p ->
+  exists f t r',
+    snd (checks fq c r) = Served (name_of r) f t r' /\
+    match timeout_header p r with
+    | [] => t = None /\ r' = r /\ (forall k, In k f -> is_timeout_kind k = false)
+    | s :: _ =>
+      r' = without_timeout p r /\ timeout_header p r' = [] /\
+      (forall d, t = Some d <-> timeout_is p s d) /\
+      ((exists k, In k f /\ is_timeout_kind k = true) <-> ~ exists d, timeout_is p s d)
+    end /\
+    echo_ms (Served (name_of r) f t r') = option_map (fun d => d / 1000000) t.
+Proof. exact timeout_handled_proof. Qed.
+Print Assumptions timeout_handled.
+
+(* ---- non-vacuity ---- *)
+(* the hypothesis about package time is inhabited (by what the extracted model uses) *)
+Example ex_float_quot : float_quot_ok Z.quot.
+Proof. exact float_quot_ok_exact. Qed.
+
+Definition ex_setup := {| a_version := V2; a_get := false; a_protocol := PGrpc; a_codec := CProto;
+                          a_compression := ZGzip; a_tls := TlsCert |}.
+Definition ex_client (s : shape) (z : compression) (t : tlsmode) :=
+  {| c_version := V2; c_shape := s; c_codec := CProto; c_compression := z; c_tls := t |}.
+(* both sides of silent_iff_match occur *)
+Example ex_silent :
+  feedback_of (snd (checks Z.quot [] (with_expect (bs "t") ex_setup (render (ex_client GrpcBare ZGzip TlsCert))))) = [].
+Proof. vm_compute. reflexivity. Qed.
+Example ex_three_deviations :
+  feedback_of (snd (checks Z.quot [] (with_expect (bs "t") ex_setup (render (ex_client ConnectGet ZIdentity Tls))))) =
+  [KProtocol 2 1; KCompression (bs "gzip") (bs "identity"); KCert (bs "Conformance Client") []; KMethod (bs "POST") (bs "GET")].
+Proof. vm_compute. reflexivity. Qed.
+Example ex_deviates : deviates ACert ex_setup (project (ex_client ConnectGet ZIdentity Tls)) /\
+                      ~ deviates ATls ex_setup (project (ex_client ConnectGet ZIdentity Tls)).
+Proof. cbn. repeat split; try congruence; try (intros H; apply H; reflexivity). Qed.
+
+(* grammar: members and non-members *)
+Example ex_connect_in : connect_grammar (bs "0000000005") /\ connect_duration (bs "0000000005") = 5000000.
+Proof. split; [split; [split; [discriminate|repeat constructor; cbv; congruence]|cbn; lia]|reflexivity]. Qed.
+Example ex_connect_out : ~ connect_grammar (bs "+5") /\ ~ connect_grammar (bs "00000000005") /\ ~ connect_grammar [].
+Proof.
+  repeat split.
+  - intros [[_ D] _]. inversion D as [|? ? H _]; subst. cbv in H. destruct H as [H _]. apply H. reflexivity.
+  - intros [_ L]. cbn in L. lia.
+  - intros [[H _] _]. congruence.
+Qed.
+Example ex_connect_run :
+  map extract_connect [bs "5"; bs "9999999999"; bs "+5"; bs "-0"; bs "00000000001"; bs ""] =
+  [(Some 5000000, []); (Some 9999999999000000, []); (None, [KTimeoutConnectInvalid]);
+   (None, [KTimeoutConnectInvalid]); (None, [KTimeoutConnectLong]); (None, [KTimeoutConnectInvalid])].
+Proof. vm_compute. reflexivity. Qed.
+Example ex_grpc_in : grpc_timeout_is (bs "99999999H") (2 ^ 63 - 1) /\ grpc_timeout_is (bs "2562047H") 9223369200000000000.
+Proof.
+  split.
+  - exists (bs "99999999"), 72%N, 3600000000000. repeat split; try discriminate; try (cbn; lia).
+    repeat constructor; cbv; congruence.
+  - exists (bs "2562047"), 72%N, 3600000000000. repeat split; try discriminate; try (cbn; lia).
+    repeat constructor; cbv; congruence.
+Qed.
+Example ex_grpc_run :
+  map (extract_grpc Z.quot) [bs "5S"; bs "99999999H"; bs "2562047H"; bs "2562048H"; bs "+5S"; bs "-0m";
+                             bs "000000001H"; bs "5"; bs "S"; bs ""; bs "5s"] =
+  [(Some 5000000000, []); (Some 9223372036854775807, []); (Some 9223369200000000000, []);
+   (Some 9223372036854775807, []); (None, [KTimeoutGrpcInvalid]); (None, [KTimeoutGrpcInvalid]);
+   (None, [KTimeoutGrpcLong]); (None, [KTimeoutGrpcUnit]); (None, [KTimeoutGrpcInvalid]);
+   (None, [KTimeoutGrpcEmpty]); (None, [KTimeoutGrpcUnit])].
+Proof. vm_compute. reflexivity. Qed.
+(* repeats through a history *)
+Example ex_repeat :
+  let r n := with_expect n ex_setup (render (ex_client GrpcPost ZGzip TlsCert)) in
+  map feedback_of (run_seq Z.quot [] [r (bs "a"); r (bs "b"); r (bs "a"); r (bs "a")]) =
+  [[]; []; [KRepeat 2]; [KRepeat 3]].
+Proof. vm_compute. reflexivity. Qed.
